@@ -20,6 +20,10 @@ Selected(method, ce, te) ==
   ELSE IF "deflate" \in toks THEN "deflate"
   ELSE "identity"
 
+\* The library is also built without its compression feature (cargo feature `compress` off): then nothing is ever
+\* undone, whatever is declared (and nothing is announced: RequestDefaults.tla).
+SelectedFor(compressFeature, method, ce, te) == IF compressFeature THEN Selected(method, ce, te) ELSE "identity"
+
 \* meta-properties
 NeitherMeansPassThrough(method, ce, te) ==
   ({"gzip", "deflate"} \cap (TokRange(ce) \cup TokRange(te)) = {}) => Selected(method, ce, te) = "identity"
